@@ -545,9 +545,8 @@ class Interp:
             if isinstance(base, Key) and e.attr in ('endswith', 'startswith', 'strip', 'lstrip', 'rstrip', 'lower', 'upper', 'split', 'partition', 'splitlines', 'find',
                                                      'index', 'count', 'replace', 'isspace', 'isdigit'):
                 base = base.spelling      # text methods of a case-insensitive string work on its spelling
-            if isinstance(base, str) and e.attr in ('endswith', 'startswith', 'strip', 'lstrip', 'rstrip', 'lower', 'upper', 'join', 'split', 'partition',
-                                                     'format', 'splitlines', 'index', 'find', 'rsplit', 'rpartition', 'replace', 'count'):
-                return ('strmethod', base, e.attr)
+            if isinstance(base, str) and not e.attr.startswith('_') and callable(getattr(str, e.attr, None)):
+                return ('strmethod', base, e.attr)          # a method of a decided text: CPython's own str decides
             if e.attr == '__class__' and isinstance(base, Ref) and h.objs[base.name]['__class__'] in h.module.classes:
                 return ('class', h.objs[base.name]['__class__'])
             v = h.getattr(base, e.attr, cls)
@@ -1363,6 +1362,16 @@ class Interp:
                 return getattr(s, meth)(a)
             if meth in ('strip', 'lstrip', 'rstrip'):
                 return getattr(s, meth)(*args)
+            if meth in ('isascii', 'isdigit', 'isdecimal', 'isspace') and not args:
+                # a predicate on all characters: decided on the language of the string (isascii: every character below U+0080, true
+                # for the empty string; the others: non-empty and every character in the class)
+                c_ = s.concrete()
+                if c_ is not None:
+                    return getattr(c_, meth)()
+                pat_ = {'isascii': r'(?s:[\x00-\x7f]*)', 'isdigit': r'[0-9]+', 'isdecimal': r'[0-9]+', 'isspace': r'(?s:[ \t\n\r\x0b\x0c\x1c-\x1f\x85\xa0]+)'}[meth]
+                if meth in ('isdigit', 'isdecimal', 'isspace') and not s.lang().minus(symstr.L(r'(?s:[\x00-\x7f]*)')).is_empty():
+                    raise AnalysisError('string method %s on %r (non-ASCII members of the class are not modelled)' % (meth, s))
+                return s._decide(symstr.L(pat_), meth + '()')
             if meth in ('lower', 'upper'):
                 return getattr(s, meth)()
             if meth in ('split', 'rsplit'):
